@@ -13,8 +13,11 @@ of null self-loops.  What is **not** modelled: the integer log-probability
 the null-transition closure (M6 / C13).
 
 Repaired behaviour modelled (see `fixes/`): `nan` is refused (D18); numbers are scanned on the
-token only, never beyond `end` (D30).  A declared state count whose `(int32)` truncation is
-negative makes the C code `exit` in `ckd_calloc`: the model returns `allocFail` (known finding).
+token only, never beyond `end` (D30).  The declared state count is a `long` handed to an `int32`
+parameter: when the reader tests an upper bound (`Generated.TextIn.fsgNStatesMax`, regenerated from
+the source; D88 adds `n_state > MAX_INT32`) larger values are `nStatesMalformed`; where it does not
+(the pinned tree), the value is truncated, and a negative truncation makes the C code `exit` in
+`ckd_calloc`: the model returns `allocFail` (known finding).
 -/
 namespace SSVerif.TextIn
 
@@ -160,6 +163,13 @@ def readTrans (buf : Buf) (nState : Nat) : List (Span buf.size) → TransSt → 
           | .ok st' => readTrans buf nState rest st'
         else readTrans buf nState rest st
 
+/-- the upper-bound part of the test on the declared state count (fsg_model.c:545), as far as the
+source has one -/
+def nStatesTooBig (n : Int) : Bool :=
+  match Generated.TextIn.fsgNStatesMax with
+  | some mx => decide (n > (mx : Int))
+  | none => false
+
 /-- `fsg_model_read_s3file` up to (not including) the null closure -/
 def fsgRead (buf : Buf) : Except FsgErr FsgObj :=
   let (name, ls) := headerValue buf kwBegin none (allLines buf 0)
@@ -173,7 +183,7 @@ def fsgRead (buf : Buf) : Except FsgErr FsgObj :=
       match strtol10 v with
       | none => .error .nStatesMalformed
       | some n =>
-        if n < 0 then .error .nStatesMalformed
+        if n < 0 ∨ nStatesTooBig n = true then .error .nStatesMalformed
         else
           -- fsg_model_init(fsgname, lmath, lw, n_state): the parameter is int32
           let n32 := wrap32 n
